@@ -43,6 +43,7 @@ import PyElf.Proofs.DwarfLookup
 import PyElf.Model.HistoryCaches
 import PyElf.Proofs.HistoryCfi
 import PyElf.Proofs.HistoryCaches
+import PyElf.Proofs.SigCache
 namespace PyElf.Props.C10
 open PyElf PyElf.Model.Lookup PyElf.Model.C10 PyElf.Proofs.Lookup PyElf.Proofs.C10
 
@@ -719,5 +720,38 @@ example :
   · exact (line_program_exact exX_wf hinv (c := exCU0) (by simp) true).trans rfl
   · exact ((abbrev_table_exact exX_wf hinv).1 exCU0 (by simp)).trans rfl
   · rw [(cfi_entries_exact exX_wf hinv false).2, exX_cfi]; rfl
+
+/-! ### caches built by ONE complete scan on first use (generic)
+
+  `DWARFInfo._type_units_by_sig` (signature → type unit, behind `get_DIE_by_sig8` / `get_TU_by_sig8`) and
+  `RelrRelocationTable._cached_relocations` (behind `num_relocations` / `get_relocation`) share one shape: `None` until a
+  scan has COMPLETED, then the finished map; a scan that raises publishes nothing.  `Model/SigCache` is that machine,
+  generic in the scan, the query type and the lookup (both pure in the file).  The instances, with the scans and lookups
+  of the library and their ties, are Props/C04 `sig8_history_independent` and Props/C08 `relr_cache_history_independent`.
+-/
+
+/-- every reachable state of such a cache is `None` or the completed scan's map -/
+theorem lazy_cache_inv {M Q A : Type} (scan : M × Option Err) (look : M → Q → R A) (qs : List Q) :
+    Model.SigCache.Inv scan (Model.SigCache.run scan look Model.SigCache.St.init qs).2 :=
+  (Proofs.SigCache.run_answers scan look qs _ (Proofs.SigCache.inv_init scan)).2
+
+/-- after ANY history of queries — repeated, failing, absent keys — every answer is the freshly opened object's -/
+theorem lazy_cache_answers_independent_of_history {M Q A : Type} (scan : M × Option Err) (look : M → Q → R A)
+    (qs : List Q) :
+    (Model.SigCache.run scan look Model.SigCache.St.init qs).1 = qs.map (Model.SigCache.stateless scan look) :=
+  (Proofs.SigCache.run_answers scan look qs _ (Proofs.SigCache.inv_init scan)).1
+
+/-- a failed scan leaves no trace: after a history in which every scan raised the state is still the initial one, so
+    nothing half-built can ever be observed (the defect class of fix ccfe17f: half-built type-unit / name maps) -/
+theorem lazy_cache_failed_scan_publishes_nothing {M Q A : Type} (scan : M × Option Err) (look : M → Q → R A) (e : Err)
+    (he : scan.2 = some e) (qs : List Q) :
+    (Model.SigCache.run scan look Model.SigCache.St.init qs).2.map.isSome = false := by
+  rw [Proofs.SigCache.run_published, he]
+  simp
+
+/-- non-vacuity: a two-entry map, a history with a repeated key and an absent key -/
+example : (Model.SigCache.run (([(1, 10), (2, 20)] : List (Int × Nat)), (none : Option Err))
+      (fun m (q : Int) => match m.lookup q with | some v => (.ok v : R Nat) | none => .error .keyError)
+      Model.SigCache.St.init [2, 7, 2]).1 = [.ok 20, .error .keyError, .ok 20] := by rfl
 
 end PyElf.Props.C10
